@@ -465,6 +465,7 @@ def run(ctx):
     alias_dropped_scenarios(ctx, home)
     imported_record_scenario(ctx, home)
     numeric_conversion_scenario(ctx, home)
+    string_to_integer_scenario(ctx, home)
     cxx.prune_cache()
 
 
@@ -778,6 +779,56 @@ def numeric_conversion_scenario(ctx, home):
                 elif pr.rc == 0:
                     ctx.violation("silent-overflow:%s" % direction, "%s but was converted silently instead of raising the documented numeric-overflow error" % what, {"case_dir": base, "pair": [o, n], "value": v})
                     bad = True
+    if not bad:
+        shutil.rmtree(base, ignore_errors=True)
+
+
+def string_to_integer_scenario(ctx, home):
+    """record fields, stream items and vector items that were strings in v0 and are integers now (documented: changing between primitive types, including
+    strings): a v0 string that spells a decimal integer within the new type's range is read as exactly that number - at the limits of every integer width"""
+    ints = ["int8", "uint8", "int16", "uint16", "int32", "uint32", "int64", "uint64"]
+
+    def mk(side, versions, d):
+        t = lambda n: P("string") if side == 0 else P(n)
+        return Pkg("Evo", [Rec("Nums", [("f" + n, t(n)) for n in ints]),
+                           Proto("Evo", [("one", N("Nums")), ("many", S(N("Nums"))), ("big", t("int64")), ("items", S(t("int64"))), ("vec", V(t("uint64"))), ("end", P("int32"))])], [], versions, d)
+    old = mk(0, [], "v0")
+    new = mk(1, [("v0", old)], "v1")
+    base = os.path.join(ctx.workdir, "cases", "strnum")
+    shutil.rmtree(base, ignore_errors=True)
+    opts = lambda d: emit.default_outputs(d, python=False, cpp_opts=cxx.cpp_gen_options({"generateNDJson": False}))
+    common.write_tree(base, emit.package_files(new, None, opts("../out_new")))
+    p1 = cli.run_cli("generate", os.path.join(base, new.dir), home)
+    ctx.ev()
+    if p1.rc != 0:
+        ctx.violation("rejected:string-to-integer", "string -> integer changes rejected: %s" % cli.clean(p1.stderr)[:300], {"case_dir": base})
+        return
+    lit = lambda path: re.search(r'std::string EvoWriterBase::schema_ = R"\((.*?)\)";', open(path).read(), re.S).group(1)
+    sch_new = lit(os.path.join(base, "out_new/cpp/protocols.cc"))
+    sch_old = re.search(r'previous_schemas_ = \{\s*R"\((.*?)\)"', open(os.path.join(base, "out_new/cpp/protocols.cc")).read(), re.S)
+    try:
+        exe_new = cxx.build(os.path.join(base, "out_new/cpp"), "plain")
+    except cxx.CompileError as e:
+        ctx.violation("cpp-compile-failed:string-to-integer", "generated conversion code does not compile: %s" % str(e)[-400:], {"case_dir": base})
+        return
+    if not sch_old:
+        raise common.Inconclusive("string-to-integer: the v0 schema literal was not found in the generated protocols.cc")
+    co, cn = Codec(old), Codec(new)
+    po, pn = old.find("Evo"), new.find("Evo")
+    picks = {"max": lambda n: INT_RANGE[n][1], "min": lambda n: INT_RANGE[n][0], "small": lambda n: 7, "max-1": lambda n: INT_RANGE[n][1] - 1, "zero": lambda n: 0}
+    bad = False
+    for name, f in picks.items():
+        nums = [f(n) for n in ints]
+        b64, u64 = f("int64"), f("uint64")
+        vo = [[str(x) for x in nums], [[str(x) for x in nums], ["0"] * len(ints)], str(b64), [str(b64), "5000000000", "-5000000000", "42"], [str(u64), "18446744073709551615", "4294967296"], 3]
+        want = [nums, [nums, [0] * len(ints)], b64, [b64, 5000000000, -5000000000, 42], [u64, 18446744073709551615, 4294967296], 3]
+        for bufs in (None, "4"):
+            pr = cxx.run_driver(exe_new, ["Evo", "bin", "bin"] + (["--bufs", bufs] if bufs else []), co.encode_stream(po, sch_old.group(1), vo), "plain")
+            ctx.ev()
+            ctx.count("string-to-integer.read-old")
+            ctx.case(("string-to-integer", name, bufs))
+            if not judge(ctx, cn, pn, [want], pr, sch_new, "v0 strings that spell integers at the limits of every width (%s), read by the newest reader (batch capacity %s)" % (name, bufs or 1), {"case_dir": base}, "read-old:strnum", alternatives=True):
+                bad = True
     if not bad:
         shutil.rmtree(base, ignore_errors=True)
 
